@@ -483,6 +483,18 @@ func dischargeBounds(w *World, c *simCtx, fn *ssa.Function, p *Path, e *Event) (
 			return true, "i % coresize into an array of coresize elements"
 		case ix.Op == "loopvar" && hasCond(p, func(a *T, v bool) bool { return a.Op == "lt" && v && sameTerm(a.A[0], ix) && sizeOK(a.A[1]) }):
 			return true, "loop variable < coresize"
+		case hasCond(p, func(a *T, v bool) bool {
+			if a.Op != "lt" || !v || !sameTerm(a.A[0], ix) {
+				return false
+			}
+			l := stripConv(a.A[1])
+			if l.Op != "len" {
+				return false
+			}
+			sib := stripConv(l.A[0])
+			return sib.Op == "sel" && sib.A[0].Op == "deref" && typeName(sib.A[0].A[0].Ty) == "*StateRecorder"
+		}) && nonNegative(w, ix, p):
+			return true, "0 <= i < len of a recorder array (all recorder arrays are made with the core size and never replaced)"
 		case ix.Op == "sel" && ix.S == "Address" && ix.A[0].Op == "p":
 			return true, "report address < M (MOD.report, assumption A5: only the simulator produces reports)"
 		case ix.Op == "p":
